@@ -73,7 +73,12 @@ theorem step_b1_cases (cfg : Cfg) (st : B1State) (cur : Req) (r : Resp) :
       step cfg (.b1 st cur) r = enterB1 cfg { szx := (reduce t st.szx (st.cursor + 1)).1,
                                                cursor := (reduce t st.szx (st.cursor + 1)).2 }) := by
   cases ha : r.block1 with
-  | none => left; rw [step_b1_none ha]; exact NoB1.completeBlock2 _ _ _
+  | none =>
+    left
+    rw [step_b1_none ha]
+    split
+    · trivial
+    · exact NoB1.completeBlock2 _ _ _
   | some a =>
     rw [step_b1_some ha]
     by_cases hnum : a.num ≠ (sentBlock1 st cur).num
@@ -333,19 +338,40 @@ def Truthful (body : Bytes) (r : Resp) : Prop :=
   ∃ b, r.block2 = some b ∧ r.payload = (body.drop b.start).take b.size ∧
     (b.more = true ↔ b.start + b.size < body.length)
 
+/-- what the Block2 loop can return: the assembled body, or -- the one exemption -- exactly one
+later response that came WITHOUT a Block2 option ("accepting single response"), taken alone: its
+own code, ETag and payload, never combined with the blocks received before it -/
+def SingleResponse (rs : List Resp) (o : Body) : Prop :=
+  ∃ r ∈ rs, r.block2 = none ∧ o = bodyOf r
+
+theorem SingleResponse.cons {rs : List Resp} {o : Body} (r : Resp) (h : SingleResponse rs o) :
+    SingleResponse (r :: rs) o := by
+  obtain ⟨r', hr', h1, h2⟩ := h
+  exact ⟨r', List.mem_cons_of_mem _ hr', h1, h2⟩
+
 theorem b2_ok_is_body (cfg : Cfg) (t : Req) (body : Bytes) (rs : List Resp) :
     ∀ (a : Asm) (cur : Req) (k : Nat), k ≤ body.length → a.payload = body.take k →
-    (∀ r ∈ rs, r.block2.isSome = true ∧ (r.etag = a.etag → r.code = a.code → Truthful body r)) →
-    ∀ o, (go cfg (.b2 t a cur) rs).2 = .ok o → o.payload = body ∧ o.etag = a.etag ∧ o.code = a.code := by
+    (∀ r ∈ rs, r.block2.isSome = true → r.etag = a.etag → r.code = a.code → Truthful body r) →
+    ∀ o, (go cfg (.b2 t a cur) rs).2 = .ok o →
+      (o.payload = body ∧ o.etag = a.etag ∧ o.code = a.code) ∨ SingleResponse rs o := by
   induction rs with
   | nil => intro a cur k _ _ _ o h; simp [go] at h
   | cons r rs ih =>
     intro a cur k hk ha H o h
     rw [go_cons] at h
     simp only at h
-    obtain ⟨hsome, htr⟩ := H r (List.mem_cons_self)
-    obtain ⟨b, hb⟩ := Option.isSome_iff_exists.mp hsome
+    cases hb0 : r.block2 with
+    | none =>
+      rw [step_b2_none hb0] at h
+      simp only [go_done, Outcome.ok.injEq] at h
+      exact Or.inr ⟨r, List.mem_cons_self, hb0, h.symm⟩
+    | some b =>
+    have hb := hb0
+    have htr := H r (List.mem_cons_self) (by rw [hb]; rfl)
     rw [step_b2_some hb] at h
+    by_cases hg : szxGrows cur b = true
+    · simp [hg] at h
+    rw [if_neg hg] at h
     by_cases hc : r.code ≠ a.code
     · simp [hc] at h
     rw [if_neg hc] at h
@@ -370,12 +396,14 @@ theorem b2_ok_is_body (cfg : Cfg) (t : Req) (body : Bytes) (rs : List Resp) :
             unfold enterB2 at h
             split at h
             · simp at h
-            · exact ih { a with payload := a.payload ++ r.payload, block2 := b } _ (k + b.size)
-                (by omega) hnew (fun r' hr' => H r' (List.mem_cons_of_mem _ hr')) o h
+            · rcases ih { a with payload := a.payload ++ r.payload, block2 := b } _ (k + b.size)
+                (by omega) hnew (fun r' hr' => H r' (List.mem_cons_of_mem _ hr')) o h with h' | h'
+              · exact Or.inl h'
+              · exact Or.inr (h'.cons r)
           · simp only [hv, Bool.not_true, Bool.false_eq_true, ↓reduceIte, hs, he, hm,
               Bool.not_false, go_done, Outcome.ok.injEq] at h
             subst h
-            refine ⟨?_, rfl, rfl⟩
+            refine Or.inl ⟨?_, rfl, rfl⟩
             simp only
             rw [hnew]
             apply List.take_of_length_le
@@ -386,13 +414,14 @@ theorem b2_ok_is_body (cfg : Cfg) (t : Req) (body : Bytes) (rs : List Resp) :
 
 /-- From the first response on: the first response only has to be truthfully labelled (a first
 block that does not start at offset 0 is refused, whatever its more flag); later responses are
-arbitrary unless they carry the first block's ETag AND response code. -/
+arbitrary unless they carry a Block2 option AND the first block's ETag AND response code. The
+result is the body, or exactly one later response without a Block2 option. -/
 theorem completeBlock2_ok_is_body (cfg : Cfg) (t : Req) (body : Bytes) (initial : Resp)
     (rs : List Resp) (h0 : Truthful body initial)
-    (H : ∀ r ∈ rs, r.block2.isSome = true ∧
-      (r.etag = initial.etag → r.code = initial.code → Truthful body r)) :
+    (H : ∀ r ∈ rs, r.block2.isSome = true → r.etag = initial.etag → r.code = initial.code →
+      Truthful body r) :
     ∀ o, (go cfg (completeBlock2 cfg t initial) rs).2 = .ok o →
-      o.payload = body ∧ o.etag = initial.etag ∧ o.code = initial.code := by
+      (o.payload = body ∧ o.etag = initial.etag ∧ o.code = initial.code) ∨ SingleResponse rs o := by
   intro o h
   obtain ⟨b, hb, hpay, hmore⟩ := h0
   rw [completeBlock2_some hb] at h
@@ -415,7 +444,7 @@ theorem completeBlock2_ok_is_body (cfg : Cfg) (t : Req) (body : Bytes) (initial 
     · simp [hm, hnum, hv] at h
   · simp only [hm, Bool.not_false, ↓reduceIte, go_done, Outcome.ok.injEq] at h
     subst h
-    refine ⟨?_, rfl, rfl⟩
+    refine Or.inl ⟨?_, rfl, rfl⟩
     simp only [bodyOf]
     rw [hpay]
     apply List.take_of_length_le
